@@ -3,7 +3,7 @@
 
   tools/automut.py list                       # token-level mutants of the library and generator -> $AM/muts.jsonl
   tools/automut.py filter [workers]           # drop mutants that do not build or that the existing suite kills
-  tools/automut.py eval [workers] [sample]    # run the quick checks (VERIF_SEED=1) on the survivors, first catch wins
+  tools/automut.py eval [workers] [sample] [file-prefix]   # run the quick checks (VERIF_SEED=1) on the survivors, first catch wins
   tools/automut.py report
 
 State lives in $AM (default /tmp/automut); worktrees /tmp/mw<i> are created from /repo's HEAD and removed at the end
@@ -135,15 +135,25 @@ def cmd_filter(nworkers):
     pool(todo, nworkers, fn, "filter.jsonl")
 
 
-def checks_for(fn):
+SLOW = {"C09", "C10", "C11", "C13", "C08"}  # fault-injection and scheduling checks: run them where they are relevant
+FAULTY = {"error check disabled"}
+
+
+def checks_for(m):
+    fn = m["file"]
     for pre, ids in CHECKS:
         if fn.startswith(pre):
-            return ids.split()
+            ids = ids.split()
+            if m["desc"] in FAULTY:
+                return [i for i in ids if i in SLOW] + [i for i in ids if i not in SLOW]
+            if fn.startswith("cmd/parquetgen/gen/") or os.environ.get("AM_FAST"):
+                return [i for i in ids if i not in SLOW]
+            return ids
     return []
 
 
-def cmd_eval(nworkers, sample):
-    surv = [r["m"] for r in load("filter.jsonl") if r["status"] == "survived"]
+def cmd_eval(nworkers, sample, prefix=""):
+    surv = [r["m"] for r in load("filter.jsonl") if r["status"] == "survived" and r["m"]["file"].startswith(prefix)]
     have = {r["id"] for r in load("eval.jsonl")}
     rnd = random.Random(4)
     byfile = {}
@@ -162,7 +172,7 @@ def cmd_eval(nworkers, sample):
         res = {"id": mid(m), "m": m, "runs": []}
         try:
             env = dict(os.environ, VERIF_REPO=wt, VERIF_OUT=os.path.join(AM, "out%d" % i), VERIF_SEED="1", VERIF_TIER="quick")
-            for cid in checks_for(m["file"]):
+            for cid in checks_for(m):
                 t0 = time.time()
                 rc, out = sh([os.path.join(VERIF, "check"), cid], cwd=VERIF, env=env, timeout=1500)
                 res["runs"].append([cid, rc, round(time.time() - t0)])
@@ -179,6 +189,29 @@ def cmd_eval(nworkers, sample):
             shutil.rmtree(os.path.join(AM, "out%d" % i), ignore_errors=True)
 
     pool(todo, nworkers, fn, "eval.jsonl")
+
+
+def cmd_gendiff():
+    """generator mutants (cmd/parquetgen/{fields,dremel}): does the generated code of any lab shape change at all?"""
+    surv = [r["m"] for r in load("filter.jsonl") if r["status"] == "survived" and
+            (r["m"]["file"].startswith("cmd/parquetgen/fields/") or r["m"]["file"].startswith("cmd/parquetgen/dremel/"))]
+    have = {r["id"] for r in load("gendiff.jsonl")}
+    wt = worktree(9)
+    try:
+        for m in surv:
+            if mid(m) in have:
+                continue
+            orig = apply(wt, m)
+            rc, out = sh([os.path.join(VERIF, "tools", "gendiff.py"), os.environ.get("CLEAN", "/repo"), wt, "thorough"], timeout=1200)
+            open(os.path.join(wt, m["file"]), "wb").write(orig)
+            n = -1
+            for l in out.splitlines():
+                if "generated code differs for" in l:
+                    n = int(l.split()[-1])
+            open(os.path.join(AM, "gendiff.jsonl"), "a").write(json.dumps({"id": mid(m), "m": m, "differs": n, "out": out[-1500:]}) + "\n")
+            print(m["file"], m["line"], m["desc"], "->", n, flush=True)
+    finally:
+        drop_worktree(9)
 
 
 def cmd_report():
@@ -206,6 +239,8 @@ if __name__ == "__main__":
     elif a[0] == "filter":
         cmd_filter(int(a[1]) if len(a) > 1 else 8)
     elif a[0] == "eval":
-        cmd_eval(int(a[1]) if len(a) > 1 else 3, int(a[2]) if len(a) > 2 else 12)
+        cmd_eval(int(a[1]) if len(a) > 1 else 3, int(a[2]) if len(a) > 2 else 12, a[3] if len(a) > 3 else "")
+    elif a[0] == "gendiff":
+        cmd_gendiff()
     elif a[0] == "report":
         cmd_report()
